@@ -208,7 +208,7 @@ fn main() {
     rep.count_n("corpus_histories", n_corpus);
     if args.replay.is_none() {
         let mut rng = Rng::new(args.seed);
-        let n = if args.thorough() { 400 } else { 40 };
+        let n = if args.thorough() { 300 } else { 40 };
         for i in 0..n {
             let mut r = rng.fork();
             let len = 1 + (i % 3);
